@@ -195,6 +195,14 @@ func (c *runner) schnorrCase(ec elliptic.Curve, sess NamedBytes, x NamedInt, lab
 		if !pf2.Verify(sess.B, X) {
 			return "reverify-rejected", ""
 		}
+		// the receiving party holds its own (equivalent) curve object and its own copy of the statement
+		pf2p, err := SchnorrParse(PeerCurve(ec), parts)
+		if err != nil {
+			return "reparse-error", err.Error() + " (peer curve object)"
+		}
+		if !pf2p.Verify(sess.B, X) || !pf2p.Verify(sess.B, OnPeerCurve(X)) || !pf.Verify(sess.B, OnPeerCurve(X)) {
+			return "reverify-rejected", "(parsed / statement held on another, equivalent curve object)"
+		}
 		// through the real message types and the protobuf wire format
 		var pf3 *schnorr.ZKProof
 		if cn == string(tss.Ed25519) {
@@ -210,7 +218,7 @@ func (c *runner) schnorrCase(ec elliptic.Curve, sess NamedBytes, x NamedInt, lab
 			if !m.ValidateBasic() {
 				return "message-refused", "KGRound2Message2.ValidateBasic"
 			}
-			pf3, err = m.UnmarshalZKProof(ec)
+			pf3, err = m.UnmarshalZKProof(PeerCurve(ec))
 			if err != nil {
 				return "reparse-error", err.Error()
 			}
@@ -227,7 +235,7 @@ func (c *runner) schnorrCase(ec elliptic.Curve, sess NamedBytes, x NamedInt, lab
 			if !m.ValidateBasic() {
 				return "message-refused", "SignRound4Message.ValidateBasic"
 			}
-			pf3, err = m.UnmarshalZKProof(ec)
+			pf3, err = m.UnmarshalZKProof(PeerCurve(ec))
 			if err != nil {
 				return "reparse-error", err.Error()
 			}
@@ -333,6 +341,13 @@ func (c *runner) schnorrVAll() {
 						if !pf2.Verify(sess.B, V, R) {
 							return "reverify-rejected", ""
 						}
+						pf2p, err := SchnorrVParse(PeerCurve(ec), parts)
+						if err != nil {
+							return "reparse-error", err.Error() + " (peer curve object)"
+						}
+						if !pf2p.Verify(sess.B, V, R) || !pf2p.Verify(sess.B, OnPeerCurve(V), OnPeerCurve(R)) || !pf.Verify(sess.B, V, OnPeerCurve(R)) || !pf.Verify(sess.B, OnPeerCurve(V), R) {
+							return "reverify-rejected", "(parsed / statement held on another, equivalent curve object)"
+						}
 						// message path (SignRound6Message carries a ZKProof and a ZKVProof)
 						zk, _, err := BuildSchnorr(ec, sess.B, big2, label+"/zk")
 						if err != nil {
@@ -350,7 +365,7 @@ func (c *runner) schnorrVAll() {
 						if !m.ValidateBasic() {
 							return "message-refused", "SignRound6Message.ValidateBasic"
 						}
-						pf3, err := m.UnmarshalZKVProof(ec)
+						pf3, err := m.UnmarshalZKVProof(PeerCurve(ec))
 						if err != nil {
 							return "reparse-error", err.Error()
 						}
